@@ -29,11 +29,31 @@ var loopCases = []struct {
 func f(x byte) byte { return g(x) + 1 }`, "g,f", true, "((g x) + 1#8)"},
 	{"negative constant", `func f(a int) int { return a * -5 }`, "f", true, "(BitVec.ofInt 64 (-5))"},
 
-	{"return in loop", `func f(xs []byte) int { s := 0; for _, v := range xs { s++; if v == 0 { return 1 } }; return s }`, "f", false, "in tail position"},
-	{"return in loop, direct", `func f(xs []byte) int { s := 0; for _, v := range xs { s += int(v); return s }; return s }`, "f", false, "return inside a loop"},
+	// early return (was rejected before the Go.Flow scheme)
+	{"return in loop", `func f(xs []byte) int { s := 0; for _, v := range xs { s++; if v == 0 { return 1 } }; return s }`, "f", true,
+		"Go.Flow.bind (Go.forIn xs s (fun (s : BitVec 64) (v : BitVec 8) =>"},
+	{"return in loop, direct", `func f(xs []byte) int { s := 0; for _, v := range xs { s += int(v); return s }; return s }`, "f", true, "Go.Flow.done s)) (fun (s : BitVec 64) =>"},
+	{"return in loop without state", `func f(xs []byte) bool { for _, v := range xs { if v == 0 { return true } }; return false }`, "f", true,
+		"Go.forIn xs () (fun (_ : Unit) (v : BitVec 8) =>"},
+	{"return in non-tail if", `func f(a int) int { b := 0; if a > 0 { if a > 5 { return 7 }; b = 1 }; return b }`, "f", true, "Go.Flow.bind (if (BitVec.slt 0#64 a) then"},
+	{"return in if-else", `func f(a int) int { if a > 0 { return 1 } else { a = 2 }; return a }`, "f", true, "Go.Flow.run a) (fun (a : BitVec 64) =>"},
 	{"goto", `func f(a int) int { goto L; L: return a }`, "f", false, "unsupported"},
 	{"break", `func f(xs []byte) int { s := 0; for _, v := range xs { s += int(v); break }; return s }`, "f", false, "unsupported statement"},
-	{"three-clause for", `func f(n int) int { s := 0; for i := 0; i < n; i++ { s += i }; return s }`, "f", false, "only `for … := range …` loops"},
+	// three-clause loops
+	{"three-clause for", `func f(n int) int { s := 0; for i := 0; i < n; i++ { s += i }; return s }`, "f", true, "(s + i)) s (Go.forUp true false 0#64 n 1)"},
+	{"three-clause for, uint", `func f(a, n uint) uint { var s uint; for i := 10 - a; i < n; i++ { s += i }; return s }`, "f", true, "(Go.forUp false false (10#64 - a) n 1)"},
+	{"three-clause for, <= constant", `func f() int { s := 0; for i := 1; i <= 30; i++ { s += i }; return s }`, "f", true, "(Go.forUp true true 1#64 30#64 1)"},
+	{"three-clause for, step", `func f(a int) int { s := 0; for i := a; i < 100; i += 8 { s += i }; return s }`, "f", true, "(Go.forUp true false a 100#64 8)"},
+	{"three-clause for, down", `func f(a int) int { s := 0; for j := a; j >= 0; j-- { s += j }; return s }`, "f", true, "(Go.forDown true true a 0#64 1)"},
+	{"three-clause for, down >", `func f(a, b uint) uint { var s uint; for j := a; j > b; j-- { s += j }; return s }`, "f", true, "(Go.forDown false false a b 1)"},
+	{"three-clause for, unsigned j >= 0", `func f(a uint) uint { var s uint; for j := a; j >= 0; j-- { s += j }; return s }`, "f", false, "could wrap around"},
+	{"three-clause for, <= variable", `func f(n int) int { s := 0; for i := 0; i <= n; i++ { s += i }; return s }`, "f", false, "could wrap around"},
+	{"three-clause for, step to variable bound", `func f(n int) int { s := 0; for i := 0; i < n; i += 2 { s += i }; return s }`, "f", false, "could wrap around"},
+	{"three-clause for, wrong direction", `func f(n int) int { s := 0; for i := 0; i < n; i-- { s += i }; return s }`, "f", false, "moves away from the bound"},
+	{"three-clause for, variable assigned", `func f(n int) int { s := 0; for i := 0; i < n; i++ { i = i + 1; s += i }; return s }`, "f", false, "is assigned in the body"},
+	{"three-clause for, bound assigned", `func f(n int) int { s := 0; for i := 0; i < n; i++ { n--; s += i }; return s }`, "f", false, "the bound depends on n"},
+	{"three-clause for, other shape", `func f(n int) int { s := 0; for i := 0; i != n; i++ { s += i }; return s }`, "f", false, "three-clause loop: only"},
+	{"for without condition", `func f(n int) int { for { n++ } }`, "f", false, "a loop with only a condition must be"},
 	{"closure", `func f(a int) int { g := func() int { return a }; return g() }`, "f", false, "closures are not supported"},
 	{"map", `func f(a int) int { m := map[int]int{}; m[a] = 1; return len(m) }`, "f", false, "outside the translated subset"},
 	{"index assignment to parameter", `func f(xs []byte) []byte { for i := range xs { xs[i] = 0 }; return make([]byte, 1) }`, "f", false,
@@ -48,10 +68,72 @@ func f(x byte) byte { return g(x) + 1 }`, "g,f", true, "((g x) + 1#8)"},
 	{"append in loop to outer slice", `func f(xs []byte) int { a := []byte{1}; n := 0; for _, v := range xs { b := append(a, v); n += len(b) }; return n }`, "f", false,
 		"inside a loop that does not declare"},
 	{"slice expression", `func f(xs []byte) int { return len(xs[1:]) }`, "f", false, "unsupported expression"},
-	{"unchecked index", `func f(xs []byte, i int) byte { return xs[i] }`, "f", false, "cannot establish that the index"},
-	{"index after reassignment", `func f(xs []byte) byte { var r byte; for i := range xs { i = i + 1; r = xs[i] }; return r }`, "f", false,
-		"cannot establish that the index"},
-	{"constant index", `func f(xs []byte) byte { return xs[0] }`, "f", false, "only variable[variable]"},
+	// indices that are not in range by construction: Option result, none = panic (were rejected before)
+	{"unchecked index", `func f(xs []byte, i int) byte { return xs[i] }`, "f", true, "if !(Go.inRangeS i xs.length) then Go.Flow.panic else"},
+	{"unchecked index, result type", `func f(xs []byte, i uint) byte { return xs[i+1] }`, "f", true, ": Option (BitVec 8) :="},
+	{"unchecked index, uint", `func f(xs []byte, i uint) byte { return xs[i+1] }`, "f", true, "if !(Go.inRangeU (i + 1#64) xs.length) then Go.Flow.panic else"},
+	{"index after reassignment", `func f(xs []byte) byte { var r byte; for i := range xs { i = i + 1; r = xs[i] }; return r }`, "f", true,
+		"if !(Go.inRangeS i xs.length) then Go.Flow.panic else"},
+	{"constant index", `func f(xs []byte) byte { return xs[0] }`, "f", true, "if !(decide (0 < xs.length)) then Go.Flow.panic else"},
+	{"bounds hint", `func f(xs []byte) byte { _ = xs[3]; return 1 }`, "f", true, "if !(decide (3 < xs.length)) then Go.Flow.panic else\n  Go.Flow.done 1#8"},
+	{"index under &&", `func f(xs []byte, i int) bool { return i < len(xs) && xs[i] == 0 }`, "f", true,
+		"if !(!(BitVec.slt i (BitVec.ofNat 64 xs.length)) || (Go.inRangeS i xs.length)) then Go.Flow.panic else"},
+	{"in-range index stays plain", `func f(xs []byte) byte { var r byte; for i := range xs { r ^= xs[i] }; return r }`, "f", true, "def f (xs : List (BitVec 8)) : BitVec 8 :="},
+	{"checked write to a local", `func f(n int) []byte { r := make([]byte, 4); r[n] = 1; return r }`, "f", true, "(r.set n.toNat 1#8)"},
+	{"index by byte", `func f(xs []byte, i byte) byte { return xs[i] }`, "f", false, "only int, uint and constants"},
+	{"index of call", `func g(xs []byte) []byte { return append([]byte{1}, xs...) }
+func f(xs []byte) byte { return g(xs)[0] }`, "g,f", false, "only variable[index]"},
+	{"call of a function that may panic", `func g(xs []byte) byte { return xs[0] }
+func f(xs []byte) byte { return g(xs) }`, "g,f", false, "may panic or writes into a parameter"},
+	{"negative shift count in a function that may panic", `func f(xs []byte, n int) byte { return xs[0] << n }`, "f", true, "if !(Go.nonneg n) then Go.Flow.panic else"},
+	// reslicing and condition loops
+	{"reslice", `func f(xs []byte, n int) int { xs = xs[n:]; return len(xs) }`, "f", true, "if !(Go.sliceFromS n xs.length) then Go.Flow.panic else\n  let xs : List (BitVec 8) := (xs.drop n.toNat)"},
+	{"condition loop", `func f(xs []byte) int { s := 0; for len(xs) >= 2 { s += int(xs[1]); xs = xs[2:] }; return s }`, "f", true,
+		"(BitVec.sle 2#64 (BitVec.ofNat 64 xs.length))) (fun (st_1 : List (BitVec 8) × BitVec 64) =>"},
+	{"condition loop, fuel", `func f(xs []byte) int { s := 0; for len(xs) > 0 { s += int(xs[0]); xs = xs[1:] }; return s }`, "f", true, "Go.Flow.run (xs, s)) xs.length (xs, s))"},
+	{"condition loop, no reslicing", `func f(xs []byte) int { s := 0; for len(xs) > 0 { s++ }; return s }`, "f", false, "a loop with only a condition must be"},
+	{"condition loop, conditional reslicing", `func f(xs []byte) int { s := 0; for len(xs) > 0 { if s < 3 { xs = xs[1:] }; s++ }; return s }`, "f", false,
+		"a loop with only a condition must be"},
+	{"condition loop, other condition", `func f(xs []byte, n int) int { for n > 0 { n--; xs = xs[1:] }; return n }`, "f", false, "a loop with only a condition must be"},
+	{"condition loop, len(x) >= 0", `func f(xs []byte) int { s := 0; for len(xs) >= 0 { s++; xs = xs[1:] }; return s }`, "f", false, "a loop with only a condition must be"},
+	{"reslice of a local", `func f(n int) int { r := make([]byte, 4); r = r[n:]; return len(r) }`, "f", false, "supported for slice parameters only"},
+	{"reslice with upper bound", `func f(xs []byte) int { xs = xs[1:2]; return len(xs) }`, "f", false, "unsupported expression"},
+	// output buffers
+	{"output buffer", `func f(dst []int8, src []byte) int { for _, b := range src { dst[0] = int8(b); dst = dst[1:] }; return len(src) }`, "f", true,
+		"let dst : (List (BitVec 8) × List (BitVec 8)) := (dst.1 ++ dst.2.take 1, dst.2.drop 1)"},
+	{"output buffer, result", `func f(dst []int8, src []byte) int { for _, b := range src { dst[0] = int8(b); dst = dst[1:] }; return len(src) }`, "f", true,
+		"Go.Flow.done ((BitVec.ofNat 64 src.length), (dst.1 ++ dst.2))"},
+	{"output buffer, in range", `func f(dst []int8) int { for i := range dst { dst[i] = 1 }; return 0 }`, "f", true, "def f (dst : List (BitVec 8)) : BitVec 64 × List (BitVec 8) :="},
+	{"output buffer that may overlap", `func f(dst []byte, src []byte) int { for i := range src { dst[i] = src[i] }; return 0 }`, "f", false, "may overlap"},
+	{"output buffer reassigned", `func f(dst []int8) int { dst = make([]int8, 2); dst[0] = 1; return 0 }`, "f", false, "assignment to the slice parameter"},
+	// array pointers, uint, int8, bits, errors
+	{"array pointer", `func f(l *[4]uint, i uint) uint { return l[i] }`, "f", true, "if !(Go.inRangeU i 4) then Go.Flow.panic else\n  Go.Flow.done (l.getD i.toNat 0#64)"},
+	{"array pointer written", `func f(l *[4]uint) uint { l[0] = 1; return 0 }`, "f", false, "writing through an array pointer"},
+	{"array pointer escaping", `func g(xs []uint) uint { return 0 }
+func f(l *[4]uint) uint { return g(l[:]) }`, "g,f", false, "unsupported expression"},
+	{"array pointer copied", `func f(l *[4]uint) uint { m := l; return m[0] }`, "f", false, "assignment to the array pointer"},
+	{"array pointer passed on", `func g(l *[4]uint) uint { return 0 }
+func f(l *[4]uint) uint { return g(l) }`, "g,f", false, "may only be indexed"},
+	{"array by value", `func f(l [4]uint) uint { return l[0] }`, "f", false, "outside the translated subset"},
+	{"int8", `func f(a int8, b byte) bool { return a>>1 < int8(b) }`, "f", true, "(BitVec.slt (BitVec.sshiftRight a 1) b)"},
+	{"int8 to uint", `func f(a int8) uint { return uint(a) }`, "f", true, "(BitVec.signExtend 64 a)"},
+	{"trailing zeros", `import "math/bits"
+func f(a uint) int { return bits.TrailingZeros(^a) }`, "f", true, "(Go.trailingZeros64 (~~~a))"},
+	{"other library call", `import "math/bits"
+func f(a uint) int { return bits.LeadingZeros(a) }`, "f", false, "unsupported call"},
+	{"errors", `import ("errors"; "fmt")
+var ErrX = errors.New("x")
+func f(a int) (int, error) { if a < 0 { return 0, fmt.Errorf("%w: %d", ErrX, a) }; if a == 0 { return 0, ErrX }; return a, nil }`, "f", true,
+		"(0#64, (some \"ErrX\"))"},
+	{"error variable assigned", `import "errors"
+var ErrX = errors.New("x")
+func g() { ErrX = nil }
+func f(a int) (int, error) { return a, ErrX }`, "f", false, "may be modified"},
+	{"error not from errors.New", `import "fmt"
+var ErrX = fmt.Errorf("x")
+func f(a int) (int, error) { return a, ErrX }`, "f", false, "not initialised by errors.New"},
+	{"Errorf without %w", `import "fmt"
+func f(a int) (int, error) { return a, fmt.Errorf("bad %d", a) }`, "f", false, "exactly one %w"},
 	{"modified package variable", `var tab = []int{1, 2}
 func g() { tab[0] = 5 }
 func f() int { s := 0; for i := range tab { s += tab[i] }; return s }`, "f", false, "may be modified or aliased"},
